@@ -190,6 +190,26 @@ def q1_no_self_comparison(F, r):
         r.fail("comparison floor", f"only {n} comparison sites scanned in the checker")
 
 
+def _path_names(fn, op):
+    """field names on the canonical expression of an operand (they survive iterator payloads, unlike the back-trace)"""
+    out = set()
+
+    def walk(e, depth=0):
+        rt, pth = e
+        for x in pth:
+            if isinstance(x, str) and x.startswith(".") and not x[1:].isdigit():
+                out.add(x[1:])
+        if depth > 8:
+            return
+        subs = rt[2] if rt[0] in ("call", "agg") else (rt[2:4] if rt[0] == "bin" else ([rt[2]] if rt[0] in ("cast", "un") else []))
+        if rt[0] == "call":
+            out.add(rt[1].split("::")[-1])
+        for y in subs:
+            walk(y, depth + 1)
+    walk(mir.expr(fn, op))
+    return out
+
+
 def _opname(fn, op):
     cur = op
     for _ in range(6):
@@ -231,7 +251,7 @@ def l1_limit_rules(F, r):
             if kind is None:
                 continue
             op = rv["op"] if li == 1 else {"Lt": "Gt", "Gt": "Lt", "Le": "Ge", "Ge": "Le"}[rv["op"]]       # value OP limit
-            vt = c01._toks(fn, rv["o"][1 - li])
+            vt = c01._toks(fn, rv["o"][1 - li]) | _path_names(fn, rv["o"][1 - li])
             inst = f"check_shift_limits: {kind}"
             found[kind] = True
             want = LIMIT_KINDS[kind]
